@@ -42,34 +42,43 @@ Definition asc_slice_t (k : slice) (n : Z) : slice :=
 Definition sort_bools (m : list bool) : list bool :=
   filter negb m ++ filter (fun b => b) m.
 
-(* _key_to_block_slices(retain_key_order=False): slices through slice_to_ascending_slice, lists through
-   sorted() ON THE RAW INTEGERS (negative positions are not normalised first) *)
-Definition asc_key (k : ckey) (n : Z) : ckey :=
+(* a negative position counts from the end (normalised before sorting since fixes c80a0ec) *)
+Definition norm_pos (n x : Z) : Z := if (- n <=? x) && (x <? 0) then x + n else x.
+
+(* how a key is made ascending: slices through slice_to_ascending_slice, lists / integer arrays through sorted() /
+   np.sort -- of the positions with negatives normalised when `normalise`, of the raw integers otherwise
+   (the behaviour before fix c80a0ec); integers, masks and the null slice are ascending already *)
+Definition asc_key_with (normalise : bool) (k : ckey) (n : Z) : ckey :=
   match k with
   | CSlice s => CSlice (asc_slice_t s n)
-  | CList l => CList (sort_z l)
+  | CList l => CList (sort_z (if normalise then map (norm_pos n) l else l))
   | _ => k
   end.
 
-(* container_util.key_to_ascending_key (used by FrameAssignILoc): as above, and ndarray keys go through
-   np.sort -- INCLUDING Boolean arrays (`as_array` says the key is an ndarray, not a list) *)
+(* TypeBlocks._key_to_block_slices(retain_key_order=False); the flag is REGENERATED from the source (Gen_c08) *)
+Definition asc_key (k : ckey) (n : Z) : ckey := asc_key_with block_slices_sorted_normalises_negatives k n.
+
+(* container_util.key_to_ascending_key (used by FrameAssignILoc); `as_array` says the key is an ndarray, not a list.
+   The flags are REGENERATED from the source: a Boolean array is returned unchanged (before fix dc30af2 it went
+   through np.sort like an array of positions) *)
 Definition ascending_key (k : ckey) (n : Z) (as_array : bool) : ckey :=
   match k with
-  | CMask m => if as_array then CMask (sort_bools m) else k
-  | _ => asc_key k n
+  | CMask m => if as_array && negb ascending_key_boolean_array_unchanged then CMask (sort_bools m) else k
+  | _ => asc_key_with (if as_array then ascending_key_array_normalises_negatives
+                       else ascending_key_list_normalises_negatives) k n
   end.
 
-(* GUARD of the refinement theorems: a list key holds non-negative, pairwise different positions (negative
-   positions are where sorted() of the raw integers stops being positional order: Refuted/C08.v) *)
+(* GUARD of the refinement theorems: a list key denotes pairwise different positions (after normalisation of the
+   negative ones) and a slice step is not 0 *)
 Fixpoint nodupb (l : list Z) : bool :=
   match l with
   | [] => true
   | x :: r => negb (existsb (Z.eqb x) r) && nodupb r
   end.
 
-Definition walk_dom (k : ckey) : bool :=
+Definition walk_dom (k : ckey) (n : Z) : bool :=
   match k with
-  | CList l => forallb (fun i => 0 <=? i) l && nodupb l
+  | CList l => nodupb (map (norm_pos n) l)
   | CSlice s => match s_step s with Some st => negb (st =? 0) | None => true end   (* step 0 is a ValueError *)
   | _ => true
   end.
